@@ -33,6 +33,8 @@ TEMPLATES = {
     # The repetition `#(#groups)*` is instantiated for TWO members of arbitrary (generic) type -- rule T5; the emitted
     # code for N members is the same statement N times.
     'tmpl_group_autocomplete': ('group/mod.rs', '#[cfg(feature = "autocomplete")]\nfn derive_autocomplete'),
+    # code emitted by #[derive(CommandGroup)] for Help (command_count, list_commands, command_help), two generic members
+    'tmpl_group_help': ('group/mod.rs', '#[cfg(feature = "help")]\nfn derive_help'),
 }
 
 
@@ -113,9 +115,62 @@ def extract_group(name, repo_src, log):
     return raw, text
 
 
+def extract_group_help(name, repo_src, log):
+    """code emitted by #[derive(CommandGroup)] for Help, for two members of generic type (rule T5): the generator builds
+    the per-member pieces with `if i > 0 { quote!{rest} } else { quote!{first} }`, so member 1 takes `first`, member 2
+    `rest`; list_commands has one piece per member"""
+    rel, sel = TEMPLATES[name]
+    path = source_path(name, repo_src)
+    raw = open(path).read()
+    k = raw.find(sel)
+    if k < 0:
+        raise TemplateMismatch('%s: selector not found' % rel)
+    end = raw.find('\n}\n', k)
+    bodies = [b for b in _quote_bodies(raw, k, rel) if b[2] <= end + 3]
+    if len(bodies) != 6:
+        raise TemplateMismatch('%s: expected 6 quote! literals in derive_help, found %d' % (rel, len(bodies)))
+    cc_rest, cc_first, ch_rest, ch_first, lc, outer = [_dedent(b[0]) for b in bodies]
+    first_line = bodies[5][1]
+    for piece in (cc_rest, cc_first, ch_rest, ch_first, lc):
+        if '#ty' not in piece:
+            raise TemplateMismatch('%s: a per-member piece has no #ty hole' % rel)
+    text = outer
+
+    def fill(hole, parts):
+        nonlocal text
+        if text.count(hole) != 1:
+            raise TemplateMismatch('%s: hole %s not found once' % (rel, hole))
+        m = re.search(r'^([ \t]*)' + re.escape(hole), text, re.M)
+        ind = m.group(1)
+        body = '\n'.join(ind + l if l.strip() else l for part in parts for l in part.rstrip().split('\n'))
+        text = text[:m.start()] + body + text[m.end():]
+
+    fill('#(#command_counts)*', [cc_first.replace('#ty', 'G1'), cc_rest.replace('#ty', 'G2')])
+    fill('#(#list_commands)*', [lc.replace('#ty', 'G1'), lc.replace('#ty', 'G2')])
+    fill('#(#command_help)*', [ch_first.replace('#ty', 'G1'), ch_rest.replace('#ty', 'G2')])
+    log.append({'rule': 'T5', 'file': 'embedded-cli-macros/src/' + rel, 'line': first_line,
+                'what': 'repetitions #(#command_counts)* / #(#list_commands)* / #(#command_help)* instantiated for two members '
+                        'of generic type G1, G2 (first-member and further-member pieces as the generator selects them)'})
+    if text.count('#named_lifetime') != 2 or text.count('#ident') != 1:
+        raise TemplateMismatch('%s: unexpected impl header in the group help template' % rel)
+    text = re.sub(r'impl #named_lifetime ', 'impl<G1: crate::service::Help, G2: crate::service::Help> ', text)
+    text = re.sub(r'#ident #named_lifetime', 'DerivedHelpGroup<G1, G2>', text)
+    log.append({'rule': 'T1/T2', 'file': 'embedded-cli-macros/src/' + rel, 'line': first_line,
+                'what': 'target type named DerivedHelpGroup<G1, G2>, generic over the two member types'})
+    text = re.sub(r'\b_cli::', 'crate::', text)
+    text = re.sub(r'\b_io::', 'crate::verif_specs::embedded_io::', text)
+    log.append({'rule': 'T3', 'file': 'embedded-cli-macros/src/' + rel, 'line': first_line, 'what': 'macro aliases of the crate and of embedded_io'})
+    if '#' in re.sub(r'#\[[^\]]*\]', '', text):
+        raise TemplateMismatch('%s: template has interpolations the extraction does not know' % rel)
+    text = 'pub struct DerivedHelpGroup<G1, G2> {\n    pub g1: G1,\n    pub g2: G2,\n}\n\n' + text
+    return raw, text
+
+
 def extract(name, repo_src, log):
     if name == 'tmpl_group_autocomplete':
         return extract_group(name, repo_src, log)
+    if name == 'tmpl_group_help':
+        return extract_group_help(name, repo_src, log)
     rel, sel = TEMPLATES[name]
     path = source_path(name, repo_src)
     raw = open(path).read()
